@@ -157,11 +157,13 @@ func exec(op string) vlib.Res {
 		return dsNew(f)
 	case "ds verify":
 		return dsVerify(f)
+	case "n3 nx", "n3 nodata":
+		return n3Verify(f)
 	case "sigs new":
 		return sigsNew(f)
 	case "sigs verify":
 		return sigsVerify(f)
-	case "l3 new", "l3 query", "l3 again", "l3 warm", "l3 advance", "l3 heal":
+	case "l3 new", "l3 query", "l3 again", "l3 warm", "l3 advance", "l3 heal", "l3 ask":
 		return l3Op(f, op)
 	case "pick fallback":
 		return pickFallback(f[2], vlib.Atoi(f[3]), f[4])
